@@ -75,3 +75,34 @@ func (t *SimTimer) Stop() bool {
 	t.tm.dead = true
 	return was
 }
+
+// SleepOrWake blocks the task for at most d of virtual time; MakeRunnable on it (it is
+// appended to *list) wakes it early.
+//
+//go:norace
+func SleepOrWake(d time.Duration, list *[]*Task) {
+	s := S
+	if s == nil || s.over {
+		return
+	}
+	if d <= 0 {
+		s.yield(-1, true)
+		return
+	}
+	tm := &timer{at: s.now + int64(d), task: s.cur}
+	s.addTimer(tm)
+	s.cur.timerSeq = tm.seq
+	*list = append(*list, s.cur)
+	s.block("io-wait", nil)
+	tm.dead = true
+	s.cur.timerSeq = 0
+}
+
+// MakeRunnable wakes a task parked by SleepOrWake.
+//
+//go:norace
+func MakeRunnable(t *Task) {
+	if t != nil && t.state == tsBlocked && t.waitStr == "io-wait" {
+		t.state = tsRunnable
+	}
+}
